@@ -1,6 +1,7 @@
 package main
 
 import (
+	"regexp"
 	"fmt"
 	"go/token"
 	"go/types"
@@ -569,7 +570,11 @@ func (g *Gen) appendBuiltin(v ssa.Value, cc *ssa.CallCommon, st *State, r string
 		g.assume("(forall ((l Loc)) (! (=> " + outside + " (= (select " + hn + " l) (select " + hold + " l))) :pattern ((select " + hn + " l))))")
 		g.frames = append(g.frames, havocFrame{kind: k, hn: hn, hpre: hold, conds: outside})
 		projs := map[string]bool{}
+		lastIDs := map[string][]string{} // projection -> field ids of the written cells (struct elements)
 		for _, c := range byKind[k] {
+			if m := lastFldID.FindStringSubmatch(c.path("@")); m != nil {
+				lastIDs[c.proj] = append(lastIDs[c.proj], m[1])
+			}
 			cell := func(sl, idx string) string { return c.path("(elm (s_arr " + sl + ") (+ (s_off " + sl + ") " + idx + "))") }
 			g.assume("(forall ((j Int)) (! (=> (and (<= 0 j) (< j " + lenS + ")) (= (select " + hn + " " + cell(res.T, "j") + ") (select " + hold + " " + cell(s.T, "j") + "))) :pattern ((select " + hn + " " + cell(res.T, "j") + "))))")
 			g.assume("(forall ((j Int)) (! (=> (and (<= 0 j) (< j (s_len " + t.T + "))) (= (select " + hn + " " + cell(res.T, "(+ "+lenS+" j)") + ") (select " + hold + " " + cell(t.T, "j") + "))) :pattern ((select " + hold + " " + cell(t.T, "j") + "))))")
@@ -578,7 +583,19 @@ func (g *Gen) appendBuiltin(v ssa.Value, cc *ssa.CallCommon, st *State, r string
 		// in place: cells of the array of s outside the appended index range are unchanged
 		var inRange []string
 		for pr := range projs {
-			inRange = append(inRange, "(and ((_ is pelm) ("+pr+" (l_path l))) (<= (+ (s_off "+s.T+") "+lenS+") (p_i ("+pr+" (l_path l)))) (< (p_i ("+pr+" (l_path l))) (+ (s_off "+s.T+") "+newLen+")))")
+			// a written cell is <field path>(elm(array, j)) with j in the appended range; for struct elements the
+			// last field id of the location must be one of the element's field ids of this kind (field ids are
+			// unique per struct type, so a field of any other type is untouched wherever it lives)
+			idc := ""
+			if ids := lastIDs[pr]; len(ids) > 0 && pr != "pathid" {
+				var alts []string
+				for _, id := range ids {
+					alts = append(alts, "(= (p_f (l_path l)) "+id+")")
+				}
+				sort.Strings(alts)
+				idc = " ((_ is pfld) (l_path l)) " + orTerms(alts)
+			}
+			inRange = append(inRange, "(and ((_ is pelm) ("+pr+" (l_path l))) (<= (+ (s_off "+s.T+") "+lenS+") (p_i ("+pr+" (l_path l)))) (< (p_i ("+pr+" (l_path l))) (+ (s_off "+s.T+") "+newLen+"))"+idc+")")
 		}
 		sort.Strings(inRange)
 		g.assume("(=> " + fits + " (forall ((l Loc)) (! (=> (and (= (l_obj l) (l_obj (s_arr " + s.T + "))) (not " + orTerms(inRange) + ")) (= (select " + hn + " l) (select " + hold + " l))) :pattern ((select " + hn + " l)))))")
@@ -737,6 +754,8 @@ func (g *Gen) inlineCall(ci *callInfo, actuals []Val, st *State, r string) Val {
 
 // elemPathOf returns the name of a path projection that strips the field selectors a cell path
 // adds on top of its element location (identity for scalar elements).
+var lastFldID = regexp.MustCompile(` (-?[0-9]+)\)$`)
+
 func elemPathOf(path func(string) string) string {
 	// count the nesting by applying path to a marker
 	p := path("@")
